@@ -793,7 +793,7 @@ func init() {
 	common.Register(&common.Prop{
 		ID: "C05", Level: "exploration", Run: run, Coverage: coverage, Replay: replay,
 		Assumptions: []string{
-			"operand values are drawn from the stated pools (40 int64, 28 float64 incl. NaN/±Inf/±0, 6 strings; every integer -3..4098 in the cache sweep); expression trees up to depth 2 (quick) / 3 (thorough)",
+			"operand values are drawn from the stated pools (40 int64, 28 float64 incl. NaN/±Inf/±0, 7 strings; every integer -3..4098 in the cache sweep); expression trees up to depth 2 (quick) / 3 (thorough)",
 			"`-` and `*` with exactly one float64 operand and a string operand: only the dynamic type of the result (float64) is compared, at the root of a tree",
 			"compared operand-kind combinations are exactly those the property defines: int,int for + - * % & | << >> == != < <= > >= and unary - ^; at least one float64 for + - * and the orderings (and unary - on a float); / on any two numbers; string+string, string+number, number+string; string*int for 0 <= n <= 1000",
 			"not compared (property silent): bool operands, % & | << >> ^ with a float, ordering/== of strings, - and * of strings without a float64 operand, n*string, negative or >1000 repeat counts, strings longer than 65536, == and != when a float or string is involved (C06)",
